@@ -24,7 +24,23 @@ def rule_sp_guard(ctx: RuleContext, p: Program, rid: str) -> None:
                   'Newline | Whitespace) (appending only non-empty ones) and stops at the first other token; it only advances with succ')
     f = p.func('models.internal.spacing_accessors', '_find_spacing')
     tok, succ = f.params[0], f.params[1]
-    loops = [l for l in stmts_no_doc(f.node.body) if isinstance(l, ast.While)]
+    loops = []
+    for st in stmts_no_doc(f.node.body):
+        if isinstance(st, ast.While):
+            loops.append(st)
+        elif isinstance(st, ast.Assign) and norm(st.targets[0]) == tok and isinstance(st.value, ast.Call) \
+                and isinstance(st.value.func, ast.Name) and [norm(a) for a in st.value.args] == [tok, succ]:
+            # a helper extracted from the scan: `token = helper(token, succ)` -> its loops with the parameters renamed
+            h = f.module.symbols.get(st.value.func.id)
+            if isinstance(h, FuncInfo) and len(h.params) == 2:
+                hb = stmts_no_doc(h.node.body)
+                rets = [x for x in hb if isinstance(x, ast.Return)]
+                if len(rets) == 1 and norm(rets[0].value) == h.params[0] and all(isinstance(x, (ast.While, ast.Return)) for x in hb):
+                    class Ren(ast.NodeTransformer):
+                        def visit_Name(self, n: ast.Name) -> ast.AST:
+                            return ast.copy_location(ast.Name(id={h.params[0]: tok, h.params[1]: succ}.get(n.id, n.id), ctx=n.ctx), n)
+                    import copy as _copy
+                    loops.extend(Ren().visit(_copy.deepcopy(x)) for x in hb if isinstance(x, ast.While))
     problems: list[str] = []
     if len(loops) != 2:
         raise AnalysisError('SP-GUARD: expected a skip loop and a collect loop in _find_spacing')
@@ -49,7 +65,7 @@ def rule_sp_guard(ctx: RuleContext, p: Program, rid: str) -> None:
         if any(isinstance(x, (ast.Break, ast.Continue)) for x in ast.walk(lp)):
             problems.append('loop has break/continue (tokens could be skipped inside the run)')
     other_app = [x for x in walk_no_nested(f.node) if isinstance(x, ast.Call) and isinstance(x.func, ast.Attribute)
-                 and x.func.attr in ('append', 'extend', 'insert') and not any(x is y for y in ast.walk(coll))]
+                 and x.func.attr in ('append', 'extend', 'insert') and not any(norm(x) == norm(y) for y in ast.walk(coll) if isinstance(y, ast.Call))]
     if other_app:
         problems.append('tokens are collected outside the guarded loop')
     ctx.check(not problems, rid, 'models.internal.spacing_accessors:_find_spacing', '; '.join(problems) or 'ok',
@@ -148,11 +164,11 @@ def rule_sp_route(ctx: RuleContext, p: Program, rid: str) -> None:
 
 
 def run(ctx: RuleContext, p: Program) -> None:
-    rule_sp_guard(ctx, p, 'SP-GUARD')
-    rule_sp_range(ctx, p, 'SP-RANGE')
-    rule_sp_route(ctx, p, 'SP-ROUTE')
+    ctx.try_rule(rule_sp_guard, p, 'SP-GUARD')
+    ctx.try_rule(rule_sp_range, p, 'SP-RANGE')
+    ctx.try_rule(rule_sp_route, p, 'SP-ROUTE')
     from . import grammar_rules
-    grammar_rules.rule_spacing_re(ctx, p, 'SPACING-RE')
+    ctx.try_rule(grammar_rules.rule_spacing_re, p, 'SPACING-RE')
     ctx.not_decided += ['which invisible tokens neighbour a model at run time', 'that adjacent models see the same run (follows from '
                         'the mirror-image getters, not observed)']
     ctx.assumptions += ['TokenStore.get_prev/get_next/splice/insert semantics (C07)']
